@@ -49,6 +49,64 @@ func runC10(c *Ctx) {
 	c.Rule("R5")
 	c10R5(c)
 
+	// R7 a slice made with the length of one list is indexed by a loop over that same list
+	// (response-derived lists differ in length at the remote's pleasure: indexing a slice sized
+	// from one by positions of another is an index-out-of-range panic)
+	c.Rule("R7")
+	{
+		n := 0
+		for _, f := range c.P.Funcs() {
+			if pk := eng.Short(f.Pkg.PkgPath); pk != "dht/pb" && pk != "dht" && pk != "dht/fullrt" && pk != "dht/dual" && pk != "dht/crawler" && pk != "dht/internal/net" {
+				continue
+			}
+			info := f.Info()
+			f.Walk(func(x ast.Node) bool {
+				as, ok := x.(*ast.AssignStmt)
+				if !ok || len(as.Lhs) != 1 {
+					return true
+				}
+				ix, ok := eng.Unparen(as.Lhs[0]).(*ast.IndexExpr)
+				if !ok {
+					return true
+				}
+				so, io := eng.ObjOf(info, ix.X), eng.ObjOf(info, ix.Index)
+				if so == nil || io == nil {
+					return true
+				}
+				// slice made with len(Z)
+				var z ast.Expr
+				for _, d := range assignsDeep(f.Root(), so) {
+					if mk, isMk := eng.IsCallTo(info, defOrNil(d), "builtin.make"); isMk && len(mk.Args) == 2 {
+						if la := eng.LenArg(info, mk.Args[1]); la != nil {
+							z = la
+						}
+					}
+				}
+				if z == nil {
+					return true
+				}
+				// index is the key of an enclosing range over Y
+				for y := c.P.Parent(as); y != nil; y = c.P.Parent(y) {
+					rg, isR := y.(*ast.RangeStmt)
+					if !isR || rg.Key == nil || !eng.IsObj(info, rg.Key, io) {
+						continue
+					}
+					n++
+					c.Funcs[f.Name] = true
+					c.Check(K(f.Name, "index "+short(ix)), as.Pos(), eng.SameExpr(info, rg.X, z), "a slice sized by len(L) is filled by position only in a loop over L", "made with len("+short(z)+") but indexed by a loop over "+short(rg.X))
+					break
+				}
+				return true
+			})
+		}
+		c.Check("sized-and-indexed slices", 0, n >= 3, "slices filled by position exist in the client-side packages", "found "+itoa(n))
+	}
+
+	// R8 a failing peer costs a bounded number of attempts: the retry discipline of the
+	// per-peer sender (one retry, flag set before it) — C11.R2
+	c.Rule("R8")
+	c.Share("C11", "R2")
+
 	// R6 no response sequence makes the value search close its stop channel twice (a panic):
 	// the abort verdict is kept and ends the processing loop before the next response (shared with C04.R2)
 	c.Rule("R6")
